@@ -108,7 +108,26 @@ func selfTest(ctx *core.Ctx) error {
 		a.L[1], b.L[0] = a.E[len(a.E)-1], b.E[0]
 	})
 
-	recs := []record{good, obNum.Rec, obDup.Rec}
+	// the second shape: one in-memory value, a key replaced after a first use
+	memObs, err := observeMem(spec{Style: "random", N: 65, Seed: 1, Per: 2,
+		Mem: &memSpec{Source: "literal", Pre: "all", Ops: []memOp{{Op: "R", Del: "mid", Add: "hi"}}}}, nil)
+	if err != nil || len(memObs) != 1 {
+		return core.Infra("self-test: in-memory script: %v", err)
+	}
+	memGood := memObs[0].Rec
+	add("All() of the in-memory value still yields the replaced key", "ValueEnumerates", memGood, func(r *record) {
+		for i, v := range r.Val {
+			if v < 0 {
+				r.VAllK[len(r.VAllK)/2] = i + 1
+				return
+			}
+		}
+	})
+	add("Lookup on the in-memory value misses the inserted key", "ValueLookup", memGood, func(r *record) {
+		r.VL[r.VAllK[len(r.VAllK)-1]-1] = -1
+	})
+
+	recs := []record{good, obNum.Rec, obDup.Rec, memGood}
 	nGood := len(recs)
 	for _, c := range cs {
 		recs = append(recs, c.rec)
@@ -143,7 +162,14 @@ func selfTest(ctx *core.Ctx) error {
 			return core.Infra("self-test: variant %s should violate %s, got %q", v, want, res.Invariant)
 		}
 	}
-	ctx.Logf("self-test (ii): the four seeded defects (limits max/min off by one, strict lookup comparison, collapse without grouping) violate the model")
+	res, err := ctx.TLC(core.TLCOpts{Dir: "tree", Module: "KeyTreeMem", Cfg: "MC_KeyTreeMem_neg_cachedKeys.cfg", Workers: 4, Mode: "negative-control"})
+	if err != nil {
+		return err
+	}
+	if res.Invariant != "MemEnumerates" && res.Invariant != "MemWrite" {
+		return core.Infra("self-test: variant cachedKeys should violate MemEnumerates/MemWrite, got %q", res.Invariant)
+	}
+	ctx.Logf("self-test (ii): the four seeded defects (limits max/min off by one, strict lookup comparison, collapse without grouping) and the kept key slice of the in-memory value violate the models")
 
 	// (iii) a wrong table line must be noticed
 	if checkTable(genCase{N: 129, Accept: false}, ob) == "" || checkTable(genCase{N: 128, Accept: true}, ob) == "" ||
